@@ -1,6 +1,7 @@
 package main
 
 import (
+	"github.com/foxboron/go-uefi/efi/signature"
 	"bytes"
 	"encoding/binary"
 	"fmt"
@@ -131,7 +132,7 @@ func obsStr(f func() (string, error)) string {
 
 func init() {
 	checkers["C17"] = checker{
-		rule: "GUIDs drawn from boundary classes (leading-zero nibbles per field, all-ff, zero, asymmetric bytes, one zero field) and uniformly; strings from empty/ASCII/BMP/non-BMP/boundary-scalar/mixed classes up to the tier's length bound; each case runs one conversion on the implementation and the extracted relation R_C17 decides it; a case is non-trivial when its input is not the all-zero GUID / empty string, distinct by hash of (operation, arguments)",
+		rule: "GUIDs drawn from boundary classes (leading-zero nibbles per field, all-ff, zero, asymmetric bytes, one zero field) and uniformly; strings from empty/ASCII/BMP/non-BMP/boundary-scalar/mixed classes up to the tier's length bound; each case runs one conversion on the implementation and the extracted relation R_C17 decides it; the in-structure form is also read at the library's own encoding sites (signature list type and owner fields; the buffer a signed variable update covers, rebuilt with the model-validated wire bytes and verified by the RFC 2315 reference verifier); a case is non-trivial when its input is not the all-zero GUID / empty string, distinct by hash of (operation, arguments)",
 		run:  runC17,
 	}
 }
@@ -183,6 +184,48 @@ func runC17(c *Ctx) {
 		binary.Write(&wb, binary.LittleEndian, g)
 		v, info = c.Drv.Eval("guid_wire", ga, hx(wb.Bytes()))
 		c.Rep.Record("guid_wire", class, nt, desc, []string{ga, hx(wb.Bytes())}, v, info, nil)
+		// ... and at the library's own encoding sites: a signature list (type, owner),
+		// and the buffer a signed variable update covers
+		if i%16 == 0 {
+			sl := &signature.SignatureList{SignatureType: g, ListSize: 28 + 20, Size: 20,
+				Signatures: []signature.SignatureData{{Owner: g, Data: []byte{1, 2, 3, 4}}}}
+			var lb bytes.Buffer
+			signature.WriteSignatureList(&lb, *sl)
+			if lb.Len() >= 44 {
+				for k, part := range [][]byte{lb.Bytes()[0:16], lb.Bytes()[28:44]} {
+					v, info = c.Drv.Eval("guid_wire", ga, hx(part))
+					c.Rep.Record("guid_wire", fmt.Sprintf("%s/siglist-site%d", class, k), nt, desc, []string{ga, hx(part)}, v, info, nil)
+				}
+			}
+			// the wire bytes written by hand (validated by the model), then the signed buffer rebuilt with them
+			hand := make([]byte, 16)
+			binary.LittleEndian.PutUint32(hand, g.Data1)
+			binary.LittleEndian.PutUint16(hand[4:], g.Data2)
+			binary.LittleEndian.PutUint16(hand[6:], g.Data3)
+			copy(hand[8:], g.Data4[:])
+			if hv, _ := c.Drv.Eval("guid_wire", ga, hx(hand)); hv == "ok" {
+				key := rsaKey(2048, 0)
+				cert := simpleCert(key, "image signer 0", 300)
+				gg := g
+				ev := efivar.Efivar{Name: "v", GUID: &gg, Attributes: 0x27}
+				payload := []byte("payload")
+				auth, _, err := signature.SignEFIVariable(ev, rawValue(payload), key, cert)
+				verdict, why := "ok", []string{}
+				if err != nil {
+					verdict, why = "violation", []string{"SignEFIVariable failed: " + err.Error()}
+				} else {
+					var tb bytes.Buffer
+					binary.Write(&tb, binary.LittleEndian, auth.Time)
+					buf := append([]byte{'v', 0}, hand...)
+					buf = append(buf, 0x27, 0, 0, 0)
+					buf = append(append(buf, tb.Bytes()...), payload...)
+					if ok, msg := refVerify(auth.AuthInfo.CertData, buf, cert); !ok {
+						verdict, why = "violation", []string{"the signed update does not cover name || in-structure GUID || attributes || time || payload: " + msg}
+					}
+				}
+				c.Rep.Record("guid_wire", class+"/signed-buffer-site", nt, desc, []string{ga}, verdict, why, nil)
+			}
+		}
 		// comparison: equal copy, and a copy differing in exactly one place
 		h := g
 		cmpClass := "equal"
